@@ -186,6 +186,20 @@ def lastGeoip (g0 : Geo) : List (Outcome Pol × Option Sel × GeoLoad Geo) → G
   | (.err, _, _) :: rest => lastGeoip g0 rest
   | (.panic, _, _) :: rest => lastGeoip g0 rest
 
+/-! ## the phantom blocklist on the way of a registration (`ValidateRegistration`, `ingestRegistration`)
+
+A registration whose phantom is blocklisted is refused **early** by `ValidateRegistration` unless its source is
+exempted there (registrations of the station's own detector are first shared with the peer stations), and
+**late** by `ingestRegistration`, just before `AddRegistration`, for the sources checked there.  The two sets
+of sources are parameters; `CJ/Gen/C19Sources.lean` holds the sets read off the code. -/
+
+/-- does a registration from source `src` get past both phantom-blocklist checks (`blocked`: what
+`IsBlocklistedPhantom` answers for its phantom) -/
+def phantomAdmitted (exemptEarly checkedLate : List Nat) (src : Nat) (blocked : Bool) : Bool :=
+  if blocked && !(exemptEarly.contains src) then false        -- ValidateRegistration: errBlocklistedPhantom
+  else if blocked && checkedLate.contains src then false       -- ingestRegistration: "ignoring registration with blocklisted phantom"
+  else true
+
 /-! ## the statistics printer of the liveness module -/
 
 open CJ.Liveness in
